@@ -587,6 +587,27 @@ pub fn run(run: &'static Run) {
         }
     }
     let ctx = Ctx { dir: files.path().to_path_buf() };
+    if !run.is_replay() {
+        // vacuity guards: git really wrote the structures the seeds are named after
+        let has = |seed: &str, sig: &[u8]| corpus.seeds.iter().any(|s| format!("{}/{}", s.format, s.name) == seed && s.bytes.windows(sig.len()).any(|w| w == sig));
+        for (seed, sig) in [
+            ("index/v2-tree", &b"TREE"[..]),
+            ("index/v2-reuc", b"REUC"),
+            ("index/v2-untr-eoie-ieot", b"UNTR"),
+            ("index/v2-untr-eoie-ieot", b"EOIE"),
+            ("index/v2-untr-eoie-ieot", b"IEOT"),
+            ("commit-graph/bloom-edge", b"EDGE"),
+            ("commit-graph/bloom-edge", b"BDAT"),
+            ("midx/two-packs", b"PNAM"),
+        ] {
+            run.require(&format!("seed {seed} contains {}", String::from_utf8_lossy(sig)), has(seed, sig));
+        }
+        if !run.quick() {
+            for (seed, sig) in [("index/v2-link", &b"link"[..]), ("index/v3-sparse", b"sdir"), ("commit-graph/split-top", b"BASE"), ("midx/ridx", b"RIDX"), ("index/v4-untr-eoie-ieot", b"UNTR")] {
+                run.require(&format!("seed {seed} contains {}", String::from_utf8_lossy(sig)), has(seed, sig));
+            }
+        }
+    }
     let mut seed_info = BTreeMap::new();
     for s in &corpus.seeds {
         seed_info.insert(format!("{}/{}", s.format, s.name), s.bytes.len());
